@@ -192,6 +192,7 @@ pub fn all() -> Vec<CheckDef> {
                     cases: |t| t.pick(20_000, 200_000),
                 },
                 Family { enumerate: None, variant: "", name: "T7-restamp-then-cas", strategy: |_| templates::t7(), cases: |t| t.pick(16_000, 160_000) },
+                Family { enumerate: None, variant: "", name: "T13-cell-changed-away-and-back-around-a-parked-cas", strategy: |_| templates::t13(), cases: |t| t.pick(8_000, 80_000) },
             ],
             exec: rcworld::exec,
             rule: "programs hammering AtomicRc cells with load/store/swap/compare_exchange(_weak)/compare_exchange_tag; non-trivial = at least one successful and one failed CAS, or a CAS whose expected snapshot differed from the cell's word in the internal epoch bits only; distinct = distinct hash of the case",
@@ -219,6 +220,7 @@ pub fn all() -> Vec<CheckDef> {
                     cases: |t| t.pick(20_000, 200_000),
                 },
                 Family { enumerate: None, variant: "", name: "T7w-restamp-then-weak-cas", strategy: |_| templates::t7w(), cases: |t| t.pick(16_000, 160_000) },
+                Family { enumerate: None, variant: "", name: "T13w-weak-cell-changed-away-and-back-around-a-parked-cas", strategy: |_| templates::t13w(), cases: |t| t.pick(8_000, 80_000) },
             ],
             exec: rcworld::exec,
             rule: "programs hammering AtomicWeak cells, and the restamp-then-CAS template with the expected WeakSnapshot loaded from the cell, downgraded from a Snapshot loaded from an AtomicRc written at another epoch, or taken from a Weak; non-trivial = at least one successful and one failed CAS, or a CAS whose expected WeakSnapshot differed from the cell's word in the internal epoch bits only; distinct = distinct hash of the case",
